@@ -5,7 +5,7 @@ from __future__ import annotations
 import ast
 from dataclasses import dataclass
 
-from ..core import AnalysisError, Check, dotted, norm, strip_docstring, walk_no_nested
+from ..core import AnalysisError, Check, dotted, forwarding_problems, norm, strip_docstring, walk_no_nested
 from ..variants import Variant
 
 LOSSES = "fit/losses.py"
@@ -155,9 +155,12 @@ class C20(Check):
               "is the copy on that path, made before any update",
         "L3": "each residual applies the candidate values to the model before simulating, evaluates settings.loss on the selected "
               "columns, and maps a failed simulation to +inf",
+        "L5": "routing and forwarding: the candidate values are routed to parameters / initial values by membership in the model's own "
+              "parameter / variable names, and every ensemble / carousel routine forwards each option it accepts (loss, residual, integrator, "
+              "bounds, y0, copy flag) under the same name",
         "L4": "standard scaling applies one and the same affine map (x - mean(data)) / std(data) to data and prediction",
     }
-    floors = {"L1": 7, "L2": 10, "L3": 9, "L4": 2}
+    floors = {"L1": 7, "L2": 10, "L3": 9, "L4": 2, "L5": 12}
     decided = [
         "which shipped losses are proper discrepancy measures (>= 0, 0 at equality) and which provably are not",
         "with copying enabled (the default) no fit routine hands the caller's model to the optimiser loop",
@@ -171,6 +174,7 @@ class C20(Check):
         self.l2()
         self.l3()
         self.l4()
+        self.l5()
 
     def l1(self) -> None:
         mod = self.prog.module(LOSSES)
@@ -313,6 +317,52 @@ class C20(Check):
             else:
                 self.violated("L3", ROUT, q, "loss-of-selected-columns", m[0], "the residual is not settings.loss of the prediction restricted to the data columns")
 
+    def l5(self) -> None:
+        mod = self.prog.module(ROUT)
+        for name, f in mod.functions.items():
+            if "." in name or name.startswith("_"):
+                continue
+            # (a) routing inside every _Settings(...)
+            for c in [c for c in walk_no_nested(f) if isinstance(c, ast.Call) and dotted(c.func).endswith("_Settings")]:
+                kw = {k.arg: k.value for k in c.keywords}
+                defs = {norm(a.targets[0]): norm(a.value) for a in walk_no_nested(f) if isinstance(a, ast.Assign) and isinstance(a.targets[0], ast.Name)}
+                ok = True
+                why = ""
+                for field, getter in (("p_names", "get_parameter_names()"), ("v_names", "get_variable_names()")):
+                    v = kw.get(field)
+                    if not (isinstance(v, ast.ListComp) and len(v.generators) == 1 and norm(v.generators[0].iter) == "p0" and len(v.generators[0].ifs) == 1):
+                        ok, why = False, f"{field}={norm(v)[:50]} is not a membership filter of p0"
+                        break
+                    t = v.generators[0].ifs[0]
+                    src = norm(t.comparators[0]) if isinstance(t, ast.Compare) and isinstance(t.ops[0], ast.In) else "?"
+                    if not defs.get(src, "").endswith(getter):
+                        ok, why = False, f"{field} filters p0 by `{src}` = {defs.get(src, '?')}, not by the model's {getter[4:-2].replace('_', ' ')}"
+                        break
+                if ok:
+                    self.holds("L5", ROUT, name, "candidate-routing", c, "p0 entries are routed to parameters / initial values by the model's own name lists")
+                else:
+                    self.violated("L5", ROUT, name, "candidate-routing", c, why, witness="fitting an initial value: the candidate is never applied, the fit returns p0 with the loss of the start point")
+            # (b) forwarding in delegating routines
+            for c in walk_no_nested(f):
+                if not isinstance(c, ast.Call):
+                    continue
+                target = None
+                callnode = c
+                if norm(c.func) == "partial" and c.args and isinstance(c.args[0], ast.Name) and c.args[0].id in mod.functions:
+                    target = mod.functions[c.args[0].id]
+                    callnode = ast.Call(func=c.args[0], args=[], keywords=c.keywords)
+                elif isinstance(c.func, ast.Name) and c.func.id in mod.functions and c.func.id != name and not c.func.id.startswith("_") \
+                        and "as_deepcopy" in {k.arg for k in c.keywords}:
+                    target = mod.functions[c.func.id]
+                if target is None or target.name.startswith("_"):
+                    continue
+                probs = forwarding_problems(f, callnode, target, ignore=("model", "ensemble", "carousel", "p0") if norm(c.func) == "partial" else ())
+                cons = f"forwards-options-to {target.name}"
+                if probs:
+                    self.violated("L5", ROUT, name, cons, c, "; ".join(probs), witness=f"fit.{name}(..., loss_fn=losses.mae) silently fits with the default loss")
+                else:
+                    self.holds("L5", ROUT, name, cons, c, f"every option shared with {target.name} is forwarded under its own name")
+
     def l4(self) -> None:
         mod = self.prog.module(ABST)
         m = mod.methods("_Settings")
@@ -337,6 +387,9 @@ class C20(Check):
             Variant("default-no-copy", ROUT, "time_course", "as_deepcopy: bool=True", "as_deepcopy: bool=False", expect="L2|fit/routines.py|time_course|default-true", quick=True),
             Variant("settings-before-copy", ROUT, "steady_state", "    if as_deepcopy:\n        model = deepcopy(model)\n", "    original = model\n    if as_deepcopy:\n        copied = deepcopy(model)\n", expect="L2|"),
             Variant("copy-made-but-original-used", ROUT, "protocol_time_course", "    if as_deepcopy:\n        model = deepcopy(model)\n", "    fit_model = deepcopy(model) if as_deepcopy else model\n", expect="L2|fit/routines.py|protocol_time_course|"),
+            Variant("variable-candidates-routed-by-parameter-names", ROUT, "time_course", "v_names=[i for i in p0 if i in v_names]", "v_names=[i for i in p0 if i in p_names]", expect="L5|", quick=True),
+            Variant("ensemble-drops-loss", ROUT, "ensemble_time_course", "loss_fn=loss_fn", "loss_fn=losses.rmse", expect="L5|"),
+            Variant("carousel-crosses-options", ROUT, "carousel_steady_state", "y0=y0", "y0=None", expect="L5|"),
             Variant("joint-ignores-flag", ROUT, "joint_steady_state", "model=deepcopy(i.model) if as_deepcopy else i.model", "model=i.model", expect="L2|"),
             Variant("carousel-forces-false", ROUT, "carousel_time_course", "as_deepcopy=as_deepcopy", "as_deepcopy=False", expect="L2|"),
             Variant("failure-to-zero", ROUT, "time_course_residual", "return cast(float, np.inf)", "return 0.0", expect="L3|", quick=True),
